@@ -108,11 +108,15 @@ def run(chk):
     old_p, new_p = rparams[0], rparams[1]
     ins_calls = _calls(rc, 'insert')
     chk.floor('replace_child -> insert call sites', len(ins_calls), 1)
+    from . import pat
+    ins_fn = ix.func('core.ElementList.insert')
+    ins_params = ins_fn.call_params()
     for call in ins_calls:
-        ok = len(call.args) >= 3
+        bound = pat.call_args_by_param(call, ins_fn.node)
+        ok = all(p_ in bound for p_ in ins_params[:3])
         detail = ''
         if ok:
-            a_idx, a_child, a_byname = call.args[0], call.args[1], call.args[2]
+            a_idx, a_child, a_byname = (bound[p_] for p_ in ins_params[:3])
 
             def derives(arg, container):
                 if not isinstance(arg, ast.Name):
